@@ -39,6 +39,20 @@ UnlistVerdict(t, by, unl, colcmp, idcol) ==
          THEN "unlist_key_not_contiguous"
     ELSE ""
 
+\* the same law for an operand whose id column is not in increasing order (a table that was sorted / edited before the call):
+\* rows of one key class come back in the order in which they stand in t (the id cells are unique, they name the rows)
+PosOfId(t, idcol, v) == CHOOSE i \in 1..NRows(t) : t.rows[i][idcol] = v
+UnlistVerdictG(t, by, unl, colcmp, idcol) ==
+    IF Range(unl.cols) # ColSet(t) THEN "unlist_columns"
+    ELSE IF ~BagEq(unl.rows, t.rows, Range(by)) THEN "unlist_rows"
+    ELSE IF \E p \in 1..Len(colcmp) : LexSign(colcmp[p], 1) \notin {-1, 0} THEN "unlist_not_sorted_by_keys"
+    ELSE IF \E p \in 1..(Len(unl.rows) - 1) : SameKey(unl.rows[p], unl.rows[p + 1], by)
+                 /\ ~(PosOfId(t, idcol, unl.rows[p][idcol]) < PosOfId(t, idcol, unl.rows[p + 1][idcol]))
+         THEN "unlist_not_stable"
+    ELSE IF \E p, q, s \in 1..Len(unl.rows) : p < q /\ q < s /\ SameKey(unl.rows[p], unl.rows[s], by) /\ ~SameKey(unl.rows[p], unl.rows[q], by)
+         THEN "unlist_key_not_contiguous"
+    ELSE ""
+
 \* ---- groupby / ungroup -------------------------------------------------------------------------
 \* out rows: the key cells plus the sub-table column, named grp (the default "grp" or the name that was asked for),
 \* whose cells are <<"tbl", [cols, rows]>>.  A name that is itself a key column is outside the domain (one column per name).
@@ -111,14 +125,17 @@ UnpMatch(t, xs, y, z, u, i) ==
     /\ SameKey(u, t.rows[i], xs)
     /\ u[z] = t.rows[i][z]
     /\ \E j \in YClass(t, y, i) : u[y] = RenderVal(t.rows[j][y])
-UnpivotVerdict(t, xs, y, z, unp) ==
+\* sel = the (encoded) labels of the columns that are unpivoted: all of them for unpivot(x, y, z); the listed ones when y is
+\* spelled {name: columns} (the rows addressed by the other columns are then not asked for)
+UnpivotVerdictSel(t, xs, y, z, sel, unp) ==
     IF ~UniqueXY(t, xs, y) \/ LabelClash(t, xs, y) \/ NRows(t) = 0 THEN ""
-    ELSE LET want == {i \in 1..NRows(t) : ~IsNone(t.rows[i][z])} IN
+    ELSE LET want == {i \in 1..NRows(t) : ~IsNone(t.rows[i][z]) /\ ClassLabels(t, y, i) \cap sel # {}} IN
          IF Range(unp.cols) # Range(xs) \cup {y, z} THEN "unpivot_columns"
          ELSE IF \/ Len(unp.rows) # Cardinality(want)
                  \/ \E i \in want : Cardinality({n \in 1..Len(unp.rows) : UnpMatch(t, xs, y, z, unp.rows[n], i)}) # 1
               THEN "unpivot_rows"
          ELSE ""
+UnpivotVerdict(t, xs, y, z, unp) == UnpivotVerdictSel(t, xs, y, z, AllLabels(t, y), unp)
 
 \* ---- constructive level -----------------------------------------------------------------------
 KeyTuple(r, by) == VTup([k \in 1..Len(by) |-> r[by[k]]])
@@ -140,4 +157,33 @@ CUnlist(lt, by) ==
      rows |-> FlattenSeq([n \in 1..Len(lt.rows) |->
                  LET w == Len(Pay(lt.rows[n][CHOOSE cc \in Range(lt.cols) \ Range(by) : TRUE])) IN
                  [m \in 1..w |-> [cc \in Range(lt.cols) |-> IF cc \in Range(by) THEN lt.rows[n][cc] ELSE Pay(lt.rows[n][cc])[m]]]])]
+CGroupby(t, by, grp) ==
+    LET runs == RunsOf(SortedRows(t, by), by, 1, <<>>)  nk == NonKeys(t, by) IN
+    [cols |-> by \o <<grp>>,
+     rows |-> [n \in 1..Len(runs) |-> [cc \in Range(by) \cup {grp} |->
+                 IF cc = grp THEN <<"tbl", [cols |-> SelectSeq(t.cols, LAMBDA x : x \in nk),
+                                            rows |-> [m \in 1..Len(runs[n]) |-> [x \in nk |-> runs[n][m][x]]]]>>
+                 ELSE Last(runs[n])[cc]]]]
+CUngroup(g, by, grp) ==
+    FlattenSeq([n \in 1..Len(g.rows) |-> LET sub == g.rows[n][grp][2] IN
+                 [m \in 1..Len(sub.rows) |-> [cc \in Range(by) \cup Range(sub.cols) |-> IF cc \in Range(by) THEN g.rows[n][cc] ELSE sub.rows[m][cc]]]])
+\* one pivot row per x class (first member shown), one column per y class (first member's label)
+CPivot(t, xs, y, z, agg) ==
+    LET xr == SetToSortSeq(Reps(t, xs), <)
+        yr == SetToSortSeq(YReps(t, y), <)
+        labs == [n \in 1..Len(yr) |-> LabelEnc(t.rows[yr[n]][y])] IN
+    [cols |-> xs \o labs,
+     rows |-> [n \in 1..Len(xr) |-> [cc \in Range(xs) \cup Range(labs) |->
+                 IF cc \in Range(xs) THEN t.rows[xr[n]][cc]
+                 ELSE LET k == CHOOSE k \in Range(yr) : LabelEnc(t.rows[k][y]) = cc
+                          zs == CellZs(t, xs, y, z, xr[n], k) IN
+                      IF zs = <<>> THEN None ELSE Agg(agg, zs)]]]
+\* unpivot: every column selected by IsValueCol becomes rows (x cells, its label as y, the cell as z); then None cells go
+CUnpivotBy(IsValueCol(_), t, pv, xs, y, z) ==
+    LET ycols == SelectSeq(pv.cols, IsValueCol)
+        Dec(cc) == RenderVal(t.rows[CHOOSE j \in 1..NRows(t) : LabelEnc(t.rows[j][y]) = cc][y])
+        rows == FlattenSeq([n \in 1..Len(pv.rows) |-> [m \in 1..Len(ycols) |-> [cc \in Range(xs) \cup {y, z} |->
+                   IF cc = y THEN Dec(ycols[m]) ELSE IF cc = z THEN pv.rows[n][ycols[m]] ELSE pv.rows[n][cc]]]]) IN
+    [cols |-> xs \o <<y, z>>, rows |-> SelectSeq(rows, LAMBDA r : ~IsNone(r[z]))]
+CUnpivot(t, pv, xs, y, z) == CUnpivotBy(LAMBDA cc : cc \notin Range(xs), t, pv, xs, y, z)
 =============================================================================
